@@ -40,12 +40,16 @@ def victim(phase, at):
     return code == 9
 
 
+INJ = [None]
+
+
 class Injector:
     """counts file-system operations of the code under test and 'kills' at operation number `at`"""
 
     def __init__(self, at):
         self.at, self.n = at, 0
         self.saved = []
+        INJ[0] = self
 
     def tick(self):
         self.n += 1
@@ -256,6 +260,44 @@ def harvest_scenario(engine, at):
         return crashed, None
 
 
+def sampler_scenario(at):
+    """reap-and-sync of a Sampler crop killed at operation `at`: the accumulated table keeps its earlier rows (it is the old or the new table)"""
+    import pandas as pd
+    with tmpdir() as d, quiet():
+        name = os.path.join(d, "table.pkl")
+        mk = lambda: xyz.Sampler(xyz.Runner(fn, "x"), data_name=name, default_combos={"a": [1, 2, 3]})
+        np.random.seed(3)
+        mk().sample_combos(3, verbosity=0)
+        before = pd.read_pickle(name)
+        s = mk()
+        c = s.Crop(name="c", parent_dir=d, batchsize=2)
+        c.sow_samples(4, verbosity=0)
+        c.grow_missing()
+
+        real_to_pickle = pd.DataFrame.to_pickle
+
+        def victim_phase():
+            # the table writer itself is a library call: a kill inside it leaves a partial file under the name it was given
+            def to_pickle_(self_, path, *a, **k):
+                INJ[0].tick()
+                with open(path, "wb") as fh:
+                    fh.write(b"partial")
+                INJ[0].tick()
+                return real_to_pickle(self_, path, *a, **k)
+            pd.DataFrame.to_pickle = to_pickle_
+            mk().Crop(name="c", parent_dir=d).reap()
+        crashed = victim(victim_phase, at)
+        try:
+            after = pd.read_pickle(name)
+        except Exception as e:
+            return crashed, [f"accumulated table unreadable after the crash: {type(e).__name__}: {e}"]
+        if len(after) < len(before) or not after.iloc[:len(before)].reset_index(drop=True).equals(before.reset_index(drop=True)[after.columns]):
+            return crashed, [f"earlier rows lost or altered: {len(before)} rows before, {len(after)} after"]
+        if len(after) not in (len(before), len(before) + 4):
+            return crashed, [f"table has {len(after)} rows: neither the old ({len(before)}) nor the new ({len(before) + 4}) table"]
+        return crashed, None
+
+
 tried = 0
 for kind in ("raw", "runner"):
     for stage in ("sow", "grow"):
@@ -284,4 +326,13 @@ for engine in ("joblib", "h5netcdf"):
         if not crashed:
             break
         at += 1
+at = 1
+while at < 300:
+    tried += 1
+    crashed, pr = sampler_scenario(at)
+    if pr:
+        finish(True, input=dict(stage="reap-and-sync (sampler)", crash_at_fs_operation=at), observed=pr, tried=tried)
+    if not crashed:
+        break
+    at += 1
 finish(False, tried=tried)
